@@ -128,7 +128,7 @@ def require_lits(chk, rule: str, node, required: list[tuple[str, bool, str]], wh
         b = PC.has_lit(clauses, pat, pos)
         if b is None:
             ok = False
-            lit = f"({pat})" if pos else f"!({pat})"
+            lit = fmt_req(pat, pos)
             chk.violation(
                 rule, node, construct or short(node), lit,
                 f"{what}: required condition {lit} [{desc}] is not established on every path to this statement",
@@ -137,8 +137,18 @@ def require_lits(chk, rule: str, node, required: list[tuple[str, bool, str]], wh
         else:
             binds.update(b)
     if ok:
-        chk.ok(rule, node, f"{what}: {short(node, 60)} under " + " & ".join((f"({p})" if s else f"!({p})") for p, s, _ in required))
+        chk.ok(rule, node, f"{what}: {short(node, 60)} under " + " & ".join(fmt_req(p, s) for p, s, _ in required))
     return ok
+
+
+def fmt_req(pat, pos) -> str:
+    if isinstance(pat, (list, tuple)):
+        return " or ".join(fmt_req(p, s) for p, s in pat)
+    return f"({pat})" if pos else f"!({pat})"
+
+
+def _alts(pat, pos):
+    return list(pat) if isinstance(pat, (list, tuple)) else [(pat, pos)]
 
 
 def guard_present(clauses, pat: str, pos: bool) -> bool:
@@ -197,7 +207,7 @@ def find_rejection(chk, rule: str, scope, required: list[tuple[str, bool, str]],
         if all(PC.has_lit(clauses, p, s) is not None for p, s, _d in required):
             cands.append((n, cls, clauses))
     anchor = where_hint if where_hint is not None else scope
-    req_txt = " & ".join((f"({p})" if s else f"!({p})") for p, s, _ in required)
+    req_txt = " & ".join(fmt_req(p, s) for p, s, _ in required)
     if not cands:
         chk.violation(rule, _anchor(anchor), f"rejection[{what}]", req_txt,
                       f"required rejection missing: no raise of {sorted(classes) if classes else 'an error'} under {req_txt} in the searched scope")
@@ -217,7 +227,7 @@ def find_rejection(chk, rule: str, scope, required: list[tuple[str, bool, str]],
                     continue
                 if len(c) == 1:
                     lit = next(iter(c))
-                    if any(M.match_text(p, lit.text) is not None and lit.pos == s for p, s, _ in required):
+                    if any(M.match_text(p2, lit.text) is not None and lit.pos == s2 for p, s, _ in required for p2, s2 in _alts(p, s)):
                         continue
                     if any(M.match_text(p, lit.text) is not None and lit.pos == s for p, s in allowed_extra):
                         continue
@@ -227,7 +237,7 @@ def find_rejection(chk, rule: str, scope, required: list[tuple[str, bool, str]],
                 else:
                     # disjunctive clause: acceptable only if allow-listed as a whole or loop/dispatch condition
                     txt = norm.fmt_cnf([c])
-                    if all(any(M.match_text(p, l.text) is not None and l.pos == s for p, s in list(allowed_extra) + [(p2, s2) for p2, s2, _d in required]) for l in c):
+                    if all(any(M.match_text(p, l.text) is not None and l.pos == s for p, s in list(allowed_extra) + [(p3, s3) for p2, s2, _d in required for p3, s3 in _alts(p2, s2)]) for l in c):
                         continue
                     problems.append((txt, "rejection is weakened by an extra (disjunctive) condition"))
         if not problems:
